@@ -154,3 +154,80 @@ Proof.
     apply (IH (s1, c1) x' Hinv1 (Hag1 Hag)); [|exact Hrun].
     intros k y Hk Hr. apply (Hlim (S k) y); [lia|]. cbn [sl_full_run]. rewrite Hstep. cbn [bind]. exact Hr.
 Qed.
+
+(* ---- the whole walk is a whole run that ends exactly when the loop condition fails ---- *)
+Theorem sl_full_walk_is_run (e : Env (F:=R)) pts offset_end fmax : forall fuel x x',
+  sl_full_walk fuel e pts offset_end fmax x = Ok x' ->
+  exists n, (n <= fuel)%nat /\ sl_full_run n e pts fmax x = Ok x' /\
+    walk_cond offset_end (fst x') = false /\
+    (forall k y, (k < n)%nat -> sl_full_run k e pts fmax x = Ok y ->
+       walk_cond offset_end (fst y) = true /\ walk_stuck offset_end (fst y) = false).
+Proof.
+  induction fuel as [|f IH]; intros x x' H; cbn [sl_full_walk] in H.
+  - destruct (walk_cond offset_end (fst x)) eqn:Ec; [discriminate|]. inversion H; subst.
+    exists 0%nat. split; [lia|]. split; [reflexivity|]. split; [exact Ec|]. intros k y Hk; lia.
+  - destruct (walk_cond offset_end (fst x)) eqn:Ec.
+    + ens H. apply bind_ok in H. destruct H as (x1 & Hs & Hw).
+      destruct (IH _ _ Hw) as (n & Hn & Hrun & Hend & Hall).
+      exists (S n). split; [lia|]. split; [cbn [sl_full_run]; rewrite Hs; exact Hrun|]. split; [exact Hend|].
+      intros k y Hk Hy. destruct k as [|k].
+      * cbn [sl_full_run] in Hy. inversion Hy; subst. split; [exact Ec|].
+        match goal with E : negb _ = true |- _ => apply negb_true_iff in E; exact E end.
+      * cbn [sl_full_run] in Hy. rewrite Hs in Hy. cbn [bind] in Hy. apply (Hall k y); [lia|exact Hy].
+    + inversion H; subst. exists 0%nat. split; [lia|]. split; [reflexivity|]. split; [exact Ec|]. intros k y Hk; lia.
+Qed.
+
+(* where an accepted walk ends: inside the stopping window (the last 1000 ft) and at rest, or at / past
+   the end of the path *)
+Theorem sl_full_walk_end (e : Env (F:=R)) pts offset_end fmax fuel x x' :
+  sl_full_walk fuel e pts offset_end fmax x = Ok x' ->
+  let k := ts_k (sl_st (fst x')) in
+  offset_end - ft1000 <= k_offset k /\ (offset_end <= k_offset k \/ k_speed k = 0).
+Proof.
+  intros H. destruct (sl_full_walk_is_run _ _ _ _ _ _ _ H) as (n & _ & _ & Hend & _).
+  unfold walk_cond in Hend. cbv zeta. numR.
+  apply orb_false_iff in Hend. destruct Hend as [H1 H2].
+  apply Rltb_false in H1. split; [lra|].
+  apply andb_false_iff in H2. destruct H2 as [H2|H2].
+  - apply Rltb_false in H2. left; lra.
+  - apply negb_false_iff in H2. right. destruct (Reqb_spec (k_speed (ts_k (sl_st (fst x')))) 0); [auto|discriminate].
+Qed.
+
+(* hence C11 along every accepted walk *)
+Corollary sl_full_walk_levels (e : Env (F:=R)) pts offset_end fmax fuel x x' :
+  cinv (snd x) -> levels_agree (te_of (sl_st (fst x)), snd x) ->
+  (forall k y, sl_full_run k e pts fmax x = Ok y -> (1 <= k)%nat -> limits_nonneg (snd y)) ->
+  sl_full_walk fuel e pts offset_end fmax x = Ok x' ->
+  cinv (snd x') /\ levels_agree (te_of (sl_st (fst x')), snd x').
+Proof.
+  intros Hinv Hag Hlim H. destruct (sl_full_walk_is_run _ _ _ _ _ _ _ H) as (n & _ & Hrun & _).
+  apply (sl_full_run_levels e pts fmax n x x' Hinv Hag); [|exact Hrun].
+  intros k y Hk Hy. apply (Hlim k y Hy). lia.
+Qed.
+
+(* ---- C03's row facts on every step of the whole simulation (the limits are the consist's own) ---- *)
+From AltProofs Require Import BrakingP.
+
+Theorem sl_full_step_limit_target (e : Env (F:=R)) pts fmax (s s'' : SLStateR) (c c' : ConsistR) :
+  Forall pt_ok pts -> sl_full_step e pts fmax (s, c) = Ok (s'', c') ->
+  let k' := ts_k (sl_st s'') in
+  0 <= k_speed_target k' <= k_speed_limit k' /\ k_speed (ts_k (sl_st s)) <= k_speed_limit k'.
+Proof.
+  intros Hpts H. destruct (sl_full_step_decomposes _ _ _ _ _ _ _ H) as (s' & c2 & _ & Hs & Hb & _ & _).
+  unfold sl_solve_step in Hs. apply bind_ok in Hs. destruct Hs as ([s1 ax] & Hs & Hq). inversion Hq; subst s1.
+  pose proof (step_limit_target _ _ _ _ _ _ Hpts Hs) as Hl. subst s''. exact Hl.
+Qed.
+
+(* one whole step never ends above its target when the brakes available in that step suffice *)
+Theorem sl_full_step_speed_le_target (e : Env (F:=R)) pts fmax (s s'' : SLStateR) (c c' : ConsistR) :
+  sl_full_step e pts fmax (s, c) = Ok (s'', c') ->
+  0 < k_dt (ts_k (sl_st s)) -> 0 < mass_compound (ts_p (sl_st s)) ->
+  exists c2 ax, consist_set_cur_pwr_max_out (consist_set_pwr_aux c true) (k_dt (ts_k (sl_st s))) = Ok c2 /\
+    (exists s', sl_solve_step_aux e pts (cl_of c2 fmax) s = Ok (s', ax) /\ s'' = sl_bump s') /\
+    (BrakeAdequate ax -> k_speed (ts_k (sl_st s'')) <= k_speed_target (ts_k (sl_st s''))).
+Proof.
+  intros H Hdt Hm. destruct (sl_full_step_decomposes _ _ _ _ _ _ _ H) as (s' & c2 & Hc2 & Hs & Hb & _ & _).
+  unfold sl_solve_step in Hs. apply bind_ok in Hs. destruct Hs as ([s1 ax] & Hs & Hq). inversion Hq; subst s1.
+  exists c2, ax. split; [exact Hc2|]. split; [exists s'; auto|].
+  intros Hb'. subst s''. exact (step_speed_le_target _ _ _ _ _ _ Hs Hdt Hm Hb').
+Qed.
